@@ -410,7 +410,7 @@ static void build_workload(void)
     for (size_t i = 0; i < sizeof mails / sizeof *mails; i++) email_cases(mails[i]);
     for (size_t i = 0; i < sizeof ips / sizeof *ips; i++) ip_cases(ips[i]);
     /* seeded part: same classes, names drawn from the grammar */
-    int extra_hosts = vf_thorough ? 120 : 6, extra_mails = vf_thorough ? 40 : 2, extra_ips = vf_thorough ? 300 : 6;
+    int extra_hosts = vf_thorough ? 40 : 6, extra_mails = vf_thorough ? 20 : 2, extra_ips = vf_thorough ? 150 : 6;
     vf_rng_init(&G, vf_seed, 0xc05);
     for (int i = 0; i < extra_hosts; i++) { char E[64], l[24]; int n = 1 + (i % 4); E[0] = 0; for (int j = 0; j < n; j++) { rand_label(l, j == n - 1 ? 2 : 1, 10); if (j) strcat(E, "."); strcat(E, l); }
                                            if (E[strlen(E) - 1] == '-' ) E[strlen(E) - 1] = 'z'; host_cases(E); }
